@@ -57,6 +57,8 @@ pub enum Op {
     Cwd,
     Dirs(String),
     EntriesSorted(String),
+    /// entries(path).follow(true).sort_by_name(): the listing with links followed
+    EntriesFollow(String),
     Entry(String),
     Exists(String),
     Files(String),
@@ -279,6 +281,25 @@ fn apply_raw<V: VirtualFileSystem>(fs: &V, op: &Op) -> Outcome {
             }),
             |x| x,
         ),
+        EntriesFollow(p) => res(
+            fs.entries(p).and_then(|e| {
+                let mut out = vec![];
+                let mut budget = 10_000;
+                for x in e.follow(true).sort_by_name() {
+                    budget -= 1;
+                    if budget == 0 {
+                        out.push("<NONTERMINATING>".to_string());
+                        break;
+                    }
+                    match x {
+                        Ok(en) => out.push(render_entry(&en)),
+                        Err(er) => out.push(format!("Err({})", err_kind(&er))),
+                    }
+                }
+                Ok(out.join(";"))
+            }),
+            |x| x,
+        ),
         Entry(p) => res(fs.entry(p), |e| render_entry(&e)),
         Exists(p) => Outcome::okv(fs.exists(p).to_string()),
         Files(p) => res(fs.files(p), |x| pv(&x)),
@@ -343,6 +364,7 @@ impl Op {
             Cwd => "cwd",
             Dirs(..) => "dirs",
             EntriesSorted(..) => "entries",
+            EntriesFollow(..) => "entries+follow",
             Entry(..) => "entry",
             Exists(..) => "exists",
             Files(..) => "files",
@@ -405,7 +427,7 @@ impl Op {
             Mkfile(p) | MkfileM(p, _) | MkdirP(p) | MkdirM(p, _) | WriteAll(p, _) | WriteLines(p, _) | AppendAll(p, _)
             | AppendLine(p, _) | AppendLines(p, _) | WriteHandle(p, ..) | AppendHandle(p, ..) | Remove(p) | RemoveAll(p)
             | SetCwd(p) | Chmod(p, _) | ChmodB(p, ..) | Chown(p, ..) | ChownB(p, ..) | Abs(p) | AllDirs(p) | AllFiles(p)
-            | AllPaths(p) | Dirs(p) | EntriesSorted(p) | Entry(p) | Exists(p) | Files(p) | Gid(p) | IsDir(p) | IsExec(p)
+            | AllPaths(p) | Dirs(p) | EntriesSorted(p) | EntriesFollow(p) | Entry(p) | Exists(p) | Files(p) | Gid(p) | IsDir(p) | IsExec(p)
             | IsFile(p) | IsReadonly(p) | IsSymlink(p) | IsSymlinkDir(p) | IsSymlinkFile(p) | Mode(p) | Owner(p)
             | Paths(p) | Read(p) | ReadAll(p) | ReadLines(p) | Readlink(p) | ReadlinkAbs(p) | Uid(p) => (Some(p), None),
         }
@@ -446,6 +468,7 @@ impl Op {
             AllPaths(p) => AllPaths(g(p)),
             Dirs(p) => Dirs(g(p)),
             EntriesSorted(p) => EntriesSorted(g(p)),
+            EntriesFollow(p) => EntriesFollow(g(p)),
             Entry(p) => Entry(g(p)),
             Exists(p) => Exists(g(p)),
             Files(p) => Files(g(p)),
